@@ -138,6 +138,13 @@ func refRecvBody(sc Scn, src, view fsmodel.Tree, srcDir string, res *RefRecvRes)
 			srcFS = dfs
 		}
 		switch sc.Variant {
+		case "filtered":
+			ffs, err := fsutil.NewFilterFS(srcFS, &fsutil.FilterOpt{IncludePatterns: []string{"b", "h"}})
+			if err != nil {
+				x.Panic = err.Error()
+				return
+			}
+			srcFS = ffs
 		case "subdir":
 			sub, err := fsutil.SubDirFS([]fsutil.Dir{{Stat: &types.Stat{Path: "sub", Mode: uint32(fsmodel.GoMode(fsmodel.Node{Kind: fsmodel.Dir, Perm: 0755}))}, FS: srcFS}})
 			if err != nil {
@@ -339,6 +346,25 @@ func runC06Job(t *testing.T, j *Job, r *evid.Run) *JobRes {
 		}
 		view.Sort()
 	}
+	if sc.Variant == "filtered" {
+		// include patterns b and h: the link source a of h is hidden, so h must be announced as a plain file
+		view = nil
+		for _, n := range src {
+			if n.Path == "h" || n.Path == "b" || strings.HasPrefix(n.Path, "b/") {
+				view = append(view, n)
+			}
+		}
+		cnt := map[int]int{}
+		for _, n := range view {
+			cnt[n.HL]++
+		}
+		for i := range view {
+			if view[i].HL > 0 && cnt[view[i].HL] < 2 {
+				view[i].HL = 0
+			}
+		}
+		view.Sort()
+	}
 	body := func(t *testing.T, s *Stepper, x *Exec) {
 		res := &RefRecvRes{}
 		x.Res = res
@@ -460,6 +486,12 @@ func driveC06(p *Pool, r *evid.Run) {
 		add("v1", sc, "early", pols, caps, false)
 	}
 	add("v1", []int{1, 3}, "subdir", []string{"run", "recv"}, []int{1}, false) // ids shift by the sub-root entry
+	// filtered view {b/, b/c, h}: ids 0..2; h's link source is hidden
+	for _, scr := range [][]int{{1}, {2}, {2, 1}, {1, 2}} {
+		add("v1", scr, "filtered", []string{"run", "recv"}, []int{1, 64}, false)
+		add("v1", scr, "filtered", []string{"recv"}, []int{2}, true)
+	}
+	add("v1", []int{0}, "filtered", []string{"run"}, []int{1}, false) // the directory: must fail
 	bound := 1
 	if !quick {
 		bound = 2
